@@ -262,6 +262,17 @@ Isolation == [][LET ch == {p \in Params : cache'[p] # cache[p]} IN
                 /\ Cardinality(ch) <= 2
                 /\ \A p, q \in ch : Base(cache'[p].err) = Base(cache'[q].err)
                 /\ cache' # cache => Cardinality({p \in Params : \E c \in Conns : out'[c][p] # <<>>}) <= 2]_vars
+(* The reconstruction law holds per activated scope: `seen` of a connection is (re)started by the  *)
+(* snapshot of Activate for exactly the covered parameters and forgotten when no scope of the      *)
+(* connection covers the parameter any more (Forget), so StreamReconstructs reads: for every       *)
+(* parameter inside a currently activated scope, replaying what arrived since that activation      *)
+(* gives the cache.  Deactivating one scope never affects another scope of the same or of another  *)
+(* connection: only the scopes named by Removed() go, nobody else's table changes.                 *)
+ScopeIndependence == [][\A c \in Conns :
+                          (sub'[c] # sub[c] /\ sub'[c] \subseteq sub[c] /\ sub'[c] # {}) =>
+                              /\ \E sc \in Scopes : sub[c] \ sub'[c] = sub[c] \cap Removed(sc)
+                              /\ \A d \in Conns \ {c} : sub'[d] = sub[d] /\ seen'[d] = seen[d]
+                              /\ \A p \in Params : Listens(sub'[c], p) => seen'[c][p] = seen[c][p]]_vars
 (* subscriptions only change by requests of the connection itself; the settings never change *)
 Frame == [][/\ omit' = omit /\ hidden' = hidden
             /\ Cardinality({c \in Conns : sub'[c] # sub[c]}) <= 1
